@@ -3,6 +3,7 @@ package secretstore
 import (
 	"crypto/ed25519"
 	crand "crypto/rand"
+	"crypto/subtle"
 	"encoding/hex"
 	"fmt"
 	"strings"
@@ -195,6 +196,12 @@ func (a *deviceKeystore) getOrComputeECDH(nameSpace string, publicKey crypto.Pub
 	}
 
 	secret := ecdh.X25519().ComputeSecret(privateKeyBytes, publicKeyBytes)
+
+	// a public key of small order gives the same all-zero secret to everybody
+	if subtle.ConstantTimeCompare(secret, make([]byte, len(secret))) == 1 {
+		return nil, errcode.ErrCode_ErrCryptoKeyConversion.Wrap(fmt.Errorf("public key of small order"))
+	}
+
 	groupSecretPrivateKey := ed25519.NewKeyFromSeed(secret)
 
 	privateKey, _, err = crypto.KeyPairFromStdKey(&groupSecretPrivateKey)
